@@ -1076,7 +1076,14 @@ class Sim:
         core.install()
         self.flush_caches()  # no run may depend on what earlier runs in this process left behind
         self.stats.clear()
-        doc0 = Node.from_json(self.schema, cfg["init_doc"])
+        try:
+            doc0 = Node.from_json(self.schema, cfg["init_doc"])
+        except Exception as e:  # noqa: BLE001
+            # the initial document is the to_json() output of a valid document: not being able to
+            # read it back is C05's business
+            mon.violation("C05", "decode.raised", {"shape": "doc", "site": "initial document",
+                                                   "json": cfg["init_doc"], "error": repr(e)})
+            raise core.AbortRun("initial document does not decode")
         doc0.check()
         self.r3 = [{"doc": doc0, "digest": tk.own_digest(doc0), "step": None, "cid": None}]
         self.auth = Authority(self, doc0)
